@@ -38,6 +38,13 @@ namespace xsimd
         template <class A, class T, class = typename std::enable_if<std::is_integral<T>::value, void>::type>
         XSIMD_INLINE T hadd(batch<T, A> const& self, requires_arch<generic>) noexcept;
 
+        namespace detail
+        {
+            // transposes rows of batch<T, A> with the kernel of another element type U of the same width
+            template <class U, class A, class T>
+            XSIMD_INLINE void transpose_as(batch<T, A>* matrix_begin, batch<T, A>* matrix_end) noexcept;
+        }
+
     }
 }
 
